@@ -148,6 +148,14 @@ def gen_case(rng):
     elif r < 0.21:
         forms += ["aboveroot"]
     hot = [rng.choice(FORMS[rng.choice(forms)]) for _ in range(rng.randint(1, 4))]
+    # the thumbnail of the package (if any); sometimes File elements name the thumbnail's own part
+    thumb = None
+    if rng.random() < 0.4:
+        thumb = ["thumb", rng.choice(THUMBS if rng.random() < 0.97 else ["thumb.png"]),
+                 rng.randrange(len(CONTENTS)), rng.choice([4, 5])]
+    thumb_file = thumb is not None and thumb[1].startswith("/") and rng.random() < 0.3
+    if thumb_file:
+        hot += [thumb[1]] * 2
     objs = []
     for i in shell_ids:
         cand = sm_ids * 2 + absent[:2] + ((cd_ids + shell_ids) if rng.random() < 0.04 else [])
@@ -180,17 +188,29 @@ def gen_case(rng):
     else:
         pool = list(PARTS)
         rng.shuffle(pool)
-        for pn in pool[:rng.randint(1, 3)]:
-            calls.append(["objs", pn, [rng.choice(ids) for _ in range(rng.randint(0, 6))],
-                          rng.random() < 0.5, rng.random() < 0.1, rng.choice(ID_KINDS)])
+        chosen = pool[:rng.randint(1, 3)]
+        if len(chosen) >= 2 and rng.random() < 0.7:
+            # the objects spread over the parts: submodels of different parts then share the hot file names
+            present = shell_ids + sm_ids + cd_ids
+            rng.shuffle(present)
+            for j, pn in enumerate(chosen):
+                part_ids = present[j::len(chosen)] + ([rng.choice(ids)] if rng.random() < 0.3 else [])
+                calls.append(["objs", pn, part_ids, rng.random() < 0.5, rng.random() < 0.1, rng.choice(ID_KINDS)])
+        else:
+            for pn in chosen:
+                calls.append(["objs", pn, [rng.choice(ids) for _ in range(rng.randint(0, 6))],
+                              rng.random() < 0.5, rng.random() < 0.1, rng.choice(ID_KINDS)])
     if rng.random() < 0.5:
         calls.insert(rng.randint(0, len(calls)), ["core", rng.randrange(3)])
         if rng.random() < 0.03:
             calls.append(["core", rng.randrange(3)])
-    if rng.random() < 0.4:
-        calls.insert(rng.randint(0, len(calls)),
-                     ["thumb", rng.choice(THUMBS if rng.random() < 0.97 else ["thumb.png"]),
-                      rng.randrange(len(CONTENTS)), rng.choice([4, 5])])
+    if thumb is not None:
+        calls.insert(0 if thumb_file and rng.random() < 0.5 else rng.randint(0, len(calls)), thumb)
+    if thumb_file:
+        # the file store holds a file under the thumbnail's part name: mostly the same bytes, another content type
+        files = [f for f in files if f[0] != thumb[1]]
+        files.append([thumb[1], thumb[2] if rng.random() < 0.75 else rng.randrange(len(CONTENTS)),
+                      rng.choice([t for t in (0, 3, 4, 5, 9, 10) if t != thumb[3]])])
     # receiving side
     s0 = []
     if rng.random() < 0.55:
@@ -744,7 +764,23 @@ def oracle(case, res):
         fails.append(("C08:core-properties", "core properties appeared from nowhere"))
     want_th = [c for c in case["calls"] if c[0] == "thumb"]
     if (CONTENTS[want_th[0][2]] if want_th else None) != res["thumb"]:
-        fails.append(("C08:thumbnail", "thumbnail differs after the round trip"))
+        # known: a stored file with other bytes written under the thumbnail's part name after the thumbnail
+        over = False
+        if want_th:
+            ti = next(k for k, c in enumerate(case["calls"]) if c[0] == "thumb")
+            for k, c in enumerate(case["calls"]):
+                if c[0] in ("aas", "objs") and k > ti:
+                    for pn, objs, _ in parts:
+                        for o in objs.values():
+                            if isinstance(o, model.Submodel):
+                                for _, f in file_nodes(jdoc(o)):
+                                    v = f.get("value")
+                                    if v is not None and is_local(v) and v in F and resolve(v, pn) \
+                                            and resolve(v, pn).lower() == want_th[0][1].lower() \
+                                            and content_of(F, v) != CONTENTS[want_th[0][2]]:
+                                        over = True
+        fails.append(("C08:thumbnail:part-overwritten-by-file" if over else "C08:thumbnail",
+                      "thumbnail differs after the round trip"))
     # receiving container keeps what it had
     for n, (b, ct) in res["F0_before"].items():
         if n not in F1 or content_of(F1, n) != b or F1.get_content_type(n) != ct:
@@ -799,7 +835,19 @@ def oracle(case, res):
                     rp = resolve(v, pn)
                     same = {x for x in stored_refs.get(rp.lower(), ()) if x[0] == rp} if rp is not None else ()
                     coll = rp is not None and len(stored_refs.get(rp.lower(), ())) > 1
-                    sig = ("C08:files:same-part-name-different-files" if len(same) > 1 else
+                    # the File names the thumbnail's own part: the package holds one part of that name, so whichever
+                    # is written later wins (known); with the same bytes and the thumbnail written first the File
+                    # must still come back with its own content type
+                    tcase = None
+                    if want_th and rp is not None and rp.lower() == want_th[0][1].lower():
+                        ti = next(k for k, c in enumerate(case["calls"]) if c[0] == "thumb")
+                        wi = min(k for k, c in enumerate(case["calls"]) if c[0] in ("aas", "objs"))
+                        if want[0] != CONTENTS[want_th[0][2]]:
+                            tcase = "different-bytes"
+                        elif ti > wi:
+                            tcase = "thumbnail-written-later"
+                    sig = ("C08:files:name-equals-thumbnail-part:" + tcase if tcase else
+                           "C08:files:same-part-name-different-files" if len(same) > 1 else
                            "C08:files:names-equal-up-to-case" if coll else
                            "C08:files:not-extracted@" + ([x for x in p if isinstance(x, str)] or ["?"])[-1])
                     fails.append((sig, f"File {i}:{pos} named stored file {v!r}; after reading it names {v1!r} = "
